@@ -38,9 +38,18 @@ TEMPLATES = {
     "filters": "{{ items|sort(reverse=true)|join(',') }}{{ items|map('string')|list|length }}{{ d|dictsort }}{{ items|sum(start=0) }}{{ objs|map(attribute='v')|list }}{{ items|reverse|first }}{{ nested|first|first }}",
     "child": "{% extends 'base' %}{% block a %}ca{{ x }}{{ super() }}{% endblock %}",
     "macro": "{% macro m(a, b=items) %}({{ a }}{{ b|length }}{{ varargs }}{{ kwargs|dictsort }}){% endmacro %}{{ m(1) }}{{ m(2, 3, 4, k=x) }}",
+    "tojson_indent": "{{ d|tojson(indent=2) }}|{{ items|tojson(2) }}",
+    "tojson": "{{ d|tojson }}|{{ items|tojson }}|{{ x|tojson }}",
+    "policies": "{{ 'http://a.bc x'|urlize }}|{{ 'http://a.bc'|urlize(rel='r', target='t') }}|{{ 'a b c d e f g'|truncate(5) }}|{{ 'a b c d e f g'|truncate(5, leeway=0) }}",
+    "libg": "{% macro gm() %}[{{ tg }}]{% endmacro %}{% set gv = 'v' ~ tg %}",
+    "impg1": "{% import 'libg' as l %}{{ l.gm() }}{{ l.gv }}{{ tg }}",
+    "impg2": "{% from 'libg' import gm, gv %}{{ gm() }}{{ gv }}{{ tg }}",
     "setattr": "{% set y = items %}{% set z = d %}{{ y|length }}{{ z.k }}{% for k, v in d|dictsort %}{{ k }}{{ v }}{% endfor %}",
 }
-POOL = ["imp", "fromctx", "ns", "loopstate", "cycler", "filters", "child", "macro", "setattr"]
+POOL = ["imp", "fromctx", "ns", "loopstate", "cycler", "filters", "child", "macro", "setattr", "tojson_indent", "tojson",
+        "policies", "impg1", "impg2"]
+# templates loaded with template-level globals (same names, different values)
+TEMPLATE_GLOBALS = {"impg1": {"tg": "one"}, "impg2": {"tg": "two"}}
 
 
 class O:
@@ -97,12 +106,17 @@ def snapshot(env, data, names):
             if t is not None:
                 tg[n] = dict(t.globals.maps[0]) if hasattr(t.globals, "maps") else dict(t.globals)
     eg = {k: (copy.deepcopy(v) if isinstance(v, (list, dict)) else id(v)) for k, v in env.globals.items()}
+    # policies are configuration shared by every render (and, through the defaults, by every environment)
+    import jinja2.defaults
+
+    eg["<policies>"] = copy.deepcopy(dict(env.policies))
+    eg["<default-policies>"] = copy.deepcopy(dict(jinja2.defaults.DEFAULT_POLICIES))
     return copy.deepcopy(data), eg, tg
 
 
 def render(env, name, data, async_):
     try:
-        t = env.get_template(name)
+        t = env.get_template(name, globals=TEMPLATE_GLOBALS.get(name))
         if async_:
             return e4.run(t.render_async(**data))
         return t.render(**data)
@@ -110,16 +124,55 @@ def render(env, name, data, async_):
         return ("exc", type(e).__name__, str(e)[:80])
 
 
+def in_fork(fn):
+    """run fn() in a forked child and return its (picklable) result: a pristine copy of the process state,
+    so that process-global pollution by an earlier render cannot hide in the baseline"""
+    import os
+    import pickle
+
+    r, w = os.pipe()
+    pid = os.fork()
+    if pid == 0:
+        try:
+            os.close(r)
+            try:
+                res = ("ok", fn())
+            except BaseException as e:  # noqa: BLE001
+                res = ("err", repr(e))
+            with os.fdopen(w, "wb") as f:
+                pickle.dump(res, f)
+        finally:
+            os._exit(0)
+    os.close(w)
+    with os.fdopen(r, "rb") as f:
+        data = f.read()
+    os.waitpid(pid, 0)
+    st, val = pickle.loads(data)
+    if st != "ok":
+        raise core.HarnessError("forked child failed: " + val)
+    return val
+
+
 def seq_shard(arg):
     first, depth, async_ = arg
     p = core.Part()
-    iso = {n: render(make_env(async_), n, make_data(), async_) for n in POOL}
+    iso = {n: in_fork(lambda n=n: render(make_env(async_), n, make_data(), async_)) for n in POOL}
     for rest in itertools.chain.from_iterable(itertools.product(POOL, repeat=k) for k in range(0, depth)):
         order = (first,) + rest
+        part = in_fork(lambda order=order: run_order(order, async_, iso))
+        p.evals += 1
+        p.viol.extend(part.viol)
+        p.sigs |= part.sigs
+    p.sample({"kind": "render order", "first": first, "depth": depth, "async": async_}, cap=1)
+    return p
+
+
+def run_order(order, async_, iso):
+    p = core.Part()
+    if True:
         env = make_env(async_)
         data = make_data()
         before = snapshot(env, data, ())
-        p.evals += 1
         for i, n in enumerate(order):
             out = render(env, n, data, async_)
             if out != iso[n]:
@@ -134,13 +187,12 @@ def seq_shard(arg):
             if after[1] != before[1]:
                 p.violation(f"C29/seq/env-globals-modified/{n}", {"msg": f"order {order}: rendering {n} changed environment globals",
                                                                  "script": f"from checks import c29\nc29.replay_seq({list(order)!r}, {async_!r})\n"})
-        tg = snapshot(env, data, POOL + ["lib", "base"])[2]
+        tg = snapshot(env, data, POOL + ["lib", "base", "libg"])[2]
         for n, g in tg.items():
-            if g:
+            if g != TEMPLATE_GLOBALS.get(n, {}):
                 p.violation(f"C29/seq/template-globals-modified/{n}", {"msg": f"order {order}: template globals of {n} became {g!r}"})
         if len(order) == 2:
             p.sig(("seq", order, async_, str(iso[order[-1]])[:16]))
-    p.sample({"kind": "render order", "first": first, "depth": depth, "async": async_}, cap=1)
     return p
 
 
@@ -294,9 +346,10 @@ def run(ctx: core.Ctx):
     if ctx.quick:
         qpairs = [("imp", "imp"), ("imp", "fromctx"), ("fromctx", "fromctx"), ("imp", "child"), ("child", "child"),
                   ("ns", "loopstate"), ("cycler", "cycler"), ("filters", "filters"), ("filters", "setattr"), ("macro", "macro"),
-                  ("loopstate", "loopstate"), ("imp", "filters"), ("ns", "ns"), ("macro", "setattr"), ("child", "fromctx")]
+                  ("loopstate", "loopstate"), ("imp", "filters"), ("ns", "ns"), ("macro", "setattr"), ("child", "fromctx"),
+                  ("impg1", "impg2"), ("impg1", "impg1"), ("tojson_indent", "tojson"), ("policies", "tojson")]
         plan += [(pr, "warm-all", 1, None) for pr in qpairs]
-        plan += [(pr, "cold-shared", 1, None) for pr in [("imp", "imp"), ("imp", "fromctx"), ("child", "child"), ("imp", "child")]]
+        plan += [(pr, "cold-shared", 1, None) for pr in [("imp", "imp"), ("imp", "fromctx"), ("child", "child"), ("imp", "child"), ("impg1", "impg2")]]
     else:
         plan += [(pr, "warm-all", 1, None) for pr in pairs]
         plan += [(pr, "warm-shared", 2, 20000) for pr in pairs]
